@@ -728,6 +728,8 @@ func main() {
 		}
 		p("  (%s, %s)%s\n", lq(m), methodSk(listFiles, "ConcurrentSets", m), sep)
 	}
-	p("]\n\nend Ioc.Facts\n")
+	p("]\n\n")
+	p("%s", orderFacts(repo)) // C12 (order_facts.go)
+	p("end Ioc.Facts\n")
 	fmt.Print(b.String())
 }
